@@ -312,6 +312,18 @@ func (c *Client) validateVirtualChannelFundingProposal(
 		return errors.WithMessage(err, "insufficient funds")
 	}
 
+	// Assert that exactly the virtual channel's funds are moved from the
+	// participants' balances into the new sub-allocation.
+	if !ch.state().Balances.Sub(virtual).Equal(prop.State.Balances) {
+		return errors.New("invalid balances")
+	}
+	locked := ch.state().Locked
+	if len(prop.State.Locked) != len(locked)+1 ||
+		channel.SubAllocsAssertEqual(locked, prop.State.Locked[:len(locked)]) != nil ||
+		expected.Equal(&prop.State.Locked[len(locked)]) != nil {
+		return errors.New("invalid sub-allocations")
+	}
+
 	return nil
 }
 
